@@ -110,6 +110,7 @@ type RunResult struct {
 	Race      string
 	Events    []simrt.Event
 	TaskYields []int
+	SiteBits   [64]uint64
 }
 
 func inBuild(site string) bool { return strings.HasPrefix(site, "lib/j5schema/") }
@@ -164,6 +165,7 @@ func runSim(w *Workload, prep [][]*Prepared, warm []*Prepared, cfg RunCfg, keepE
 	res.Capped = sim.Capped
 	res.StuckSite = sim.StuckSite
 	res.Events = sim.Events
+	res.SiteBits = sim.SiteBits
 	res.Race = newRaceReports()
 	sim.Close()
 	return res
